@@ -55,7 +55,7 @@ def gen_tasks(rng, quick):
             if quick:
                 orders = perms if len(perms) <= 120 else rng.sample(perms, 60)
             else:
-                orders = perms if len(perms) <= 720 else rng.sample(perms, 720)
+                orders = (perms if len(perms) <= 720 else rng.sample(perms, 1500)) * 3
             # all inputs succeed: exhaustive / sampled completion orders
             for o in orders:
                 i += 1
